@@ -112,8 +112,7 @@ theorem foldSlots_runs (P : Nat → LTree → Prop) (hf : ∀ acc cls t, P cls t
 
 end
 
-namespace LLFree
-open Prog C14
+open C14
 
 section
 variable (c : Cfg) (m : Mem)
